@@ -753,6 +753,11 @@ class Evaluator:
             lens = [a.length for a in it.args if isinstance(a, Num) and a.length is not None]
             ctx.hi = lens[0] if lens else None
             elem = Tup([self.element_of(a, lsym) for a in it.args])
+        elif isinstance(it, Term) and it.head == 'map':
+            ctx.kind = 'zip'
+            lens = [a.length for a in it.args[1:] if isinstance(a, Num) and a.length is not None]
+            ctx.hi = lens[0] if lens else None
+            elem = self.call(it.args[0], [self.element_of(a, lsym) for a in it.args[1:]], {}, None, st, s)
         elif isinstance(it, Term) and it.head == 'enumerate':
             ctx.kind = 'zip'
             a = it.args[0]
@@ -1329,6 +1334,10 @@ class Evaluator:
         if isinstance(it, Term) and it.head == 'zip':
             elem = Tup([self.element_of(a, csym) for a in it.args])
             lens = [a.length for a in it.args if isinstance(a, Num) and a.length is not None]
+            length = lens[0] if lens else None
+        elif isinstance(it, Term) and it.head == 'map':
+            elem = self.call(it.args[0], [self.element_of(a, csym) for a in it.args[1:]], {}, None, st, e)
+            lens = [a.length for a in it.args[1:] if isinstance(a, Num) and a.length is not None]
             length = lens[0] if lens else None
         elif isinstance(it, Term) and it.head == 'range' and len(it.args) == 4:
             lo, hi, step, cnt = it.args
@@ -2574,6 +2583,12 @@ def b_zip(ev, pos, kw, st, node):
     return Term('zip', pos)
 
 
+def b_map(ev, pos, kw, st, node):
+    if len(pos) >= 2 and isinstance(pos[0], Fn) and not kw:
+        return Term('map', pos)         # element i is f(a[i], b[i], ...), applied when the result is iterated
+    return None
+
+
 def b_enumerate(ev, pos, kw, st, node):
     return Term('enumerate', pos, list(kw.items()))
 
@@ -2696,7 +2711,7 @@ def b_exc(name):
 
 
 BUILTIN_HANDLERS = {'setattr': b_setattr, 'slice': b_slice, 'len': b_len, 'int': b_int, 'float': b_float, 'abs': b_abs, 'min': _minmax('min'), 'max': _minmax('max'),
-                    'range': b_range, 'zip': b_zip, 'enumerate': b_enumerate, 'isinstance': b_isinstance,
+                    'range': b_range, 'zip': b_zip, 'map': b_map, 'enumerate': b_enumerate, 'isinstance': b_isinstance,
                     'getattr': b_getattr, 'next': b_next, 'iter': b_iter, 'bool': b_bool, 'list': b_list, 'dict': b_dict, 'divmod': b_divmod, 'vars': b_vars}
 for _n in ('ValueError', 'IndexError', 'OSError', 'TypeError', 'KeyError', 'AttributeError', 'Exception', 'RuntimeError'):
     BUILTIN_HANDLERS[_n] = b_exc(_n)
